@@ -11,7 +11,7 @@ existing atoms, arrays and extra fields have matching shapes; (I3) every type id
 type-level data; (I4) resolved view = reference view; (I5) if N >= 1 the LAMMPS text is internally
 consistent under the independent reader, states the reference view, and load_lmpdat reads it back.
 """
-import io, itertools
+import io, itertools, copy as _copy
 import numpy as np
 from mc.checks.common import *
 from mc.checks import replacelib as RLIB
@@ -141,8 +141,9 @@ class Model:
 
     # ------------------------------------------------------------------ transitions
     def apply(self, st, op, step):
-        a = st['a'].copy(); ref = st['ref'].copy(); tabled = st['tabled']
+        a = _copy.deepcopy(st['a']); ref = st['ref'].copy(); tabled = st['tabled']      # harness-side clone (Atoms.copy is one of the operations under test)
         kind = op[0]
+        inputs = []          # [(name, object)] handed to the operation besides the structure it works on; must come back untouched and unshared
 
         def real(f, *args, **kw):
             r, err = call(f, *args, **kw)
@@ -153,16 +154,21 @@ class Model:
             _, fi, m, tb = op
             F = frag(fi, tb, step); m = {int(s): int(d) for s, d in m}
             uid0 = 10000 * (step + 1)
+            inputs = [('the fragment', F)]; before = [raw_state(F)]
             if kind == 'ext':
+                refF = RefStructure.of(F, uid0=uid0)
                 real(a.extend, F, structure_index_map=dict(m))
-                ref.extend(RefStructure.of(F, uid0=uid0), m)
+                ref.extend(refF, m)
             else:
+                refF = RefStructure.of(F, uid0=uid0, origin=uid0)
                 off = real(a.extend_types, F)
                 real(a.extend, F, offsets=off, structure_index_map=dict(m))
-                ref.extend(RefStructure.of(F, uid0=uid0, origin=uid0), m)
-                F2 = F.copy(); F2.translate(np.array([0.0, 0.0, 3.0]))
+                ref.extend(refF, m)
+                F2 = _copy.deepcopy(F); F2.translate(np.array([0.0, 0.0, 3.0]))
+                inputs.append(('the second fragment', F2)); before.append(raw_state(F2))
+                refF2 = RefStructure.of(F2, uid0=uid0 + 5000, origin=uid0)
                 real(a.extend, F2, offsets=off)
-                ref.extend(RefStructure.of(F2, uid0=uid0 + 5000, origin=uid0), {})
+                ref.extend(refF2, {})
             if tabled is None:
                 tabled = tb
             if ref.cell is None and a.cell is not None:
@@ -174,13 +180,20 @@ class Model:
             real(a.pop) if op[1] is None else real(a.pop, op[1])
             ref.delete([n - 1 if op[1] is None else op[1]])
         elif kind == 'rep':
+            inputs = [('the original', a)]; before = [raw_state(a)]
             ref = ref.replicated(tuple(op[1])); a = real(a.replicate, tuple(op[1]))
         elif kind == 'copy':
+            inputs = [('the original', a)]; before = [raw_state(a)]
             a = real(a.copy)
         elif kind == 'sub':
+            inputs = [('the original', a)]; before = [raw_state(a)]
             a = real(a.__getitem__, list(op[1])); ref = ref.subset(op[1])
         elif kind == 'io':
+            inputs = [('the saved structure', a)]; before = [raw_state(a)]
             s = io.StringIO(); real(a.save_lmpdat, s)
+            s2 = io.StringIO(); real(a.save_lmpdat, s2)
+            if s2.getvalue() != s.getvalue():
+                raise Violation('lammps-writable', 'second-save-differs', '%r: saving the same object twice gives different text' % (op,))
             a = real(Atoms.load_lmpdat, io.StringIO(s.getvalue()))
             ref.lammps_roundtrip()
         elif kind == 'repl':
@@ -190,6 +203,8 @@ class Model:
             rp.translate(np.array([2.2, -3.0, 0.4]))
             REC.pop('last', None)
             ex = explorer(dict(seed=0, tier=self.tier))
+            inputs = [('the structure', a), ('the search pattern', sp), ('the replacement pattern', rp)]; before = [raw_state(x) for _, x in inputs]
+            refrp = RefStructure.of(rp, uid0=0) if len(rp.atom_types) else None
             (res, err), trace = ex.run(lambda: call(replace_pattern_in_structure, a, sp, rp, replace_all=bool(ra)), ())
             if err:
                 raise Violation('no-result', 'exc:' + exc_sig(err), '%r raised %r' % (op, err[0]))
@@ -211,6 +226,15 @@ class Model:
                     r = ref.atoms[j]['rec']; ref.atoms[j]['rec'] = r[:-1] + (tuple(float(x) for x in a.positions[j]),)
         else:
             raise HarnessError('unknown op %r' % (op,))
+        if inputs:
+            bad = untouched(before, inputs)
+            if bad:
+                raise Violation('untouched', 'input-modified', '%r: %s' % (op, '; '.join(bad)))
+            keep = _copy.deepcopy(a)
+            bad = alias_probe(a, inputs, 'the structure' if kind in ('ext', 'ext2') else 'the result')
+            if bad:
+                raise Violation('untouched', 'shared-data', '%r: %s' % (op, '; '.join(bad)))
+            a = keep
         return dict(a=a, ref=ref, tabled=tabled)
 
     # ------------------------------------------------------------------ invariant
